@@ -543,6 +543,14 @@ func TestRecursionLimits(t *testing.T) {
 // ---------- replay / regressions ----------
 
 func replayFile(t *testing.T, path string) {
+	if ev.ReplayTest(path) == "TestFormatExpansionGrid" {
+		var gp fmtGridPayload
+		if _, err := ev.LoadReplay(path, &gp); err != nil {
+			t.Fatalf("load %s: %v", path, err)
+		}
+		checkFmtGrid(t, gp)
+		return
+	}
 	var p payload
 	test, err := ev.LoadReplay(path, &p)
 	if err != nil {
